@@ -38,9 +38,12 @@ def fam_scalar():
         out.append({'sd': StructDef('ScD_' + k, fd, has_init=True), 'kinds': ['codec'], 'params': tparams('codec', S=3)})
     return out
 
+# FIXED: a struct with fixed-size fields only (no optional / pointer / variable-length field, no holder): its encoded size is
+# a constant, except that a nil pointer to it is written as a bare STOP
+FIXED = StructDef('Fixed', [Field(1, 'default', S('i32'), name='A'), Field(2, 'default', S('i64'), name='B'), Field(3, 'default', S('bool'), name='C'), Field(4, 'default', S('double'), name='D')])
 ELEMS = [S(k) for k in SCALARS] + [('struct', LEAF, True), ('struct', LEAF, False), ('list', S('i32')),
-                                    ('set', S('string')), ('map', S('string'), S('i64'))]
-ELEM_NAMES = SCALARS + ['pstruct', 'vstruct', 'list_i32', 'set_string', 'map_string_i64']
+                                    ('set', S('string')), ('map', S('string'), S('i64')), ('struct', FIXED, True), ('struct', FIXED, False)]
+ELEM_NAMES = SCALARS + ['pstruct', 'vstruct', 'list_i32', 'set_string', 'map_string_i64', 'pfixed', 'vfixed']
 
 def fam_list():
     out = []
@@ -204,6 +207,19 @@ def fam_default():
     out.append(p2)
     out.append({'sd': ot, 'kinds': ['codec'], 'params': small})
     out.append({'sd': ot2, 'kinds': ['codec'], 'params': small})
+    # declared defaults on nocopy fields: a transmitted value (also the empty one) overrides the default in structs the
+    # decoder creates by pointer, by value, as list element and as map value
+    ncd = StructDef('DfNc', [Field(1, 'optional', S('string'), nocopy=True, default='"dflt"'), Field(2, 'default', S('string'), nocopy=True, default='"yz"'),
+                             Field(3, 'optional', S('binary'), nocopy=True, default='[]byte("9")'), Field(4, 'optional', S('i32'), default='5')], has_init=True)
+    ncw = StructDef('DfNcW', [Field(1, 'optional', S('string'), ptr=True), Field(2, 'optional', S('string'), ptr=True), Field(3, 'optional', S('binary')),
+                              Field(4, 'optional', S('i32'), ptr=True)])
+    for nm, (tw, tt) in (('P', (('struct', ncw, True), ('struct', ncd, True))), ('L', (('list', ('struct', ncw, False)), ('list', ('struct', ncd, False)))),
+                         ('M', (('map', S('i8'), ('struct', ncw, False)), ('map', S('i8'), ('struct', ncd, False))))):
+        pn = pair(StructDef('DfNcW' + nm, [Field(1, 'default', tw)]), StructDef('DfNcT' + nm, [Field(1, 'default', tt)]), 1)
+        pn['params'] = {'decmsg': [{'orders': 1, 'plain': 1}]}
+        out.append(pn)
+    out.append(pair(ncw, ncd, 2))
+    out.append({'sd': ncd, 'kinds': ['codec']})
     # two or more by-value elements with declared defaults: per-element scratch/slot state must not carry over from one
     # element to the next (an optional field present in one entry and omitted in the following one)
     two = {'codec': [{'S': 1, 'L': 2, 'M': 2, 'D': 1}]}
